@@ -21,7 +21,7 @@ repairs and as the reproduction of the recorded finding.
                       request-id middleware and is held at Server.SendResponse / SendErrorResponse; request 1 times
                       out and is reset, request 2 is dispatched to a new runtime, then the held submission is
                       delivered: it must be refused and must not reach the caller of request 2.
-  double-reset        F-C10-3 (known): an invocation fails (runtime exit) and, while the reset started by its release
+  double-reset        F-C10-3 (fixed): an invocation fails (runtime exit) and, while the reset started by its release
                       goroutine is held before Server.Clear, its timer expires and starts a second reset; the first one
                       completes, a second caller reserves and is dispatched to a new runtime, then the leftover reset
                       completes and releases the second caller's reservation: empty "success" for caller 2.
@@ -171,8 +171,8 @@ def double_reset(sid, timeout_ms=400):
     s.sleep(timeout_ms - 100)
     s.exit("rt", code=1)
     s.until_held("server.resetBeforeClear", n=1)
-    s.until_held("server.resetBeforeClear", n=2)
-    s.release("server.resetBeforeClear")
+    s.sleep(170)                                   # the timer expires while the first reset is held (as found: a second
+    s.release("server.resetBeforeClear")           # reset starts and is held at the same point; repaired: it waits)
     s.sleep(30)
     m = s.mark()
     it2 = s.invoke(caller=2, size=6, seed=8)
@@ -182,6 +182,7 @@ def double_reset(sid, timeout_ms=400):
     s.release("server.resetBeforeClear")
     s.sleep(50)
     s.call("rt", "response", id="current", body="answer-2")
+    s.poll("rt")
     s.wait(it2)
     s.wait(it)
     return s.done()
